@@ -13,7 +13,7 @@ EXPL = ("Decides: (1) SA-DATA exhaustively over all 64x64 entries of FNV_TABLE a
 
 
 def run(ctx):
-    cfgs = ["rel", "fnv"] if ctx.tier == "quick" else ["rel", "dbg", "fnv", "unsafe", "nodef"]
+    cfgs = ["rel", "fnv", "unsafe"] if ctx.tier == "quick" else ["rel", "dbg", "fnv", "unsafe", "nodef"]
     ctx.progs(cfgs)  # build all configurations in parallel
     for c in cfgs:
         prog = ctx.prog(c)
